@@ -372,7 +372,8 @@ def finish_check(prop, tier, seed, runs, t0, rule, min_events, assumptions, extr
         else:
             unknown_viols.append((vp, key, detail, r))
     # evidence
-    os.makedirs(os.path.join(VERIF, "evidence"), exist_ok=True)
+    evdir = os.environ.get("VP_EVIDENCE_DIR", os.path.join(VERIF, "evidence"))
+    os.makedirs(evdir, exist_ok=True)
     missing = [k for k, n in (min_events or {}).items() if (counters.get(k, 0) + hook_hits.get(k, 0)) < n]
     cov = dict(evaluations=int(evaluations), distinct_nontrivial=int(distinct), rule=rule, samples=samples or ["(no sample recorded)"],
                counters=counters, hook_hits=hook_hits, hook_delays_injected=hook_delays,
@@ -385,13 +386,13 @@ def finish_check(prop, tier, seed, runs, t0, rule, min_events, assumptions, extr
         cov.update(extra_cov)
     ev = dict(property_id=prop, tier=tier, seed=int(seed), level="exploration", coverage=cov, assumptions=assumptions,
               wall_s=round(wall, 2), violations=len(unknown_viols))
-    with open(os.path.join(VERIF, "evidence", prop + ".json"), "w") as f:
+    with open(os.path.join(evdir, prop + ".json"), "w") as f:
         json.dump(ev, f, indent=1)
     # verdict
     for (vp, hk), k in known_hits.items():
         print("KNOWN-FINDING: property=%s %s [%s]" % (vp, k.get("what", ""), hk))
     if unknown_viols:
-        wdir = os.path.join(VERIF, "witness", prop)
+        wdir = os.path.join(os.environ.get("VP_WITNESS_DIR", os.path.join(VERIF, "witness")), prop)
         os.makedirs(wdir, exist_ok=True)
         seen = set()
         n = 0
